@@ -24,3 +24,74 @@ def fault_on_the_wire(sx, p):
     problems = O.check_fault_wire(sched, rec)
     sx.observe('problems', problems)
     return not problems
+
+
+# ---------------------------------------------------------------- exceptions that surface while the response is produced
+from spyne import Application, Service, rpc
+from spyne.model.primitive import Integer, Unicode
+from spyne.model.complex import Iterable
+from spyne.model.fault import Fault
+from spyne.protocol.json import JsonDocument
+from spyne.protocol.xml import XmlDocument
+from spyne.protocol.soap import Soap11, Soap12
+from spyne.protocol.yaml import YamlDocument
+from spyne.server.wsgi import WsgiApplication
+
+LAZY = {}
+
+
+class LazySvc(Service):
+    @rpc(Integer, _returns=Iterable(Unicode))
+    def lazy(ctx, n):
+        for i in range(n):
+            yield u'item%d' % i
+        k = LAZY.get('kind')
+        if k == 'exception':
+            raise RuntimeError('lazy secret 4711')
+        if k == 'fault':
+            raise Fault('Client.Lazy', u'lazy fault')
+        yield u'last'
+
+
+LAZY_APPS = {}
+LAZY_REQ = {'json': lambda n: (b'{"lazy": {"n": %d}}' % n, 'application/json'),
+            'yaml': lambda n: (b'lazy: {n: %d}' % n, 'text/yaml'),
+            'xml': lambda n: (b'<lazy xmlns="tns"><n>%d</n></lazy>' % n, 'text/xml'),
+            'soap11': lambda n: (('<s:Envelope xmlns:s="%s"><s:Body><lazy xmlns="tns"><n>%d</n></lazy></s:Body></s:Envelope>'
+                                  % (P.SOAP_ENV, n)).encode(), 'text/xml'),
+            'soap12': lambda n: (('<s:Envelope xmlns:s="http://www.w3.org/2003/05/soap-envelope"><s:Body><lazy xmlns="tns"><n>%d</n></lazy>'
+                                  '</s:Body></s:Envelope>' % n).encode(), 'application/soap+xml')}
+
+
+@harness('C09', params=sorted(LAZY_REQ), functions=['spyne.server.wsgi.WsgiApplication.handle_rpc',
+                                                   'spyne.server.wsgi.WsgiApplication.handle_error',
+                                                   'spyne.application.get_fault_string_from_exception'],
+         bounds={'schedule': 'a generator method that yields 0, 1 or 2 items and then raises a non-Fault exception carrying a secret, '
+                             'raises a Fault, or finishes; chunked or not; five protocols over WSGI'})
+def lazily_raised(sx, proto):
+    """an exception that only surfaces while the response is being produced is treated like any other: a Fault arrives as
+    it is, anything else as Server / 'Internal Error' with nothing of its text, and nothing escapes the WSGI callable"""
+    import io
+    kind = sx.choose('kind', ['exception', 'fault', 'none'])
+    n = sx.choose('items_before', [0, 1, 2])
+    chunked = sx.choose('chunked', [True, False])
+    if proto not in LAZY_APPS:
+        Pc = {'json': JsonDocument, 'yaml': YamlDocument, 'xml': XmlDocument, 'soap11': Soap11, 'soap12': Soap12}[proto]
+        LAZY_APPS[proto] = Application([LazySvc], 'tns', in_protocol=Pc(), out_protocol=Pc())
+    LAZY['kind'] = kind
+    body, ctype = LAZY_REQ[proto](n)
+    environ = {'REQUEST_METHOD': 'POST', 'PATH_INFO': '/', 'QUERY_STRING': '', 'SERVER_NAME': 'localhost', 'SERVER_PORT': '80',
+               'wsgi.url_scheme': 'http', 'wsgi.input': io.BytesIO(body), 'CONTENT_LENGTH': str(len(body)), 'CONTENT_TYPE': ctype}
+    status = []
+    out = b''.join(WsgiApplication(LAZY_APPS[proto], chunked=chunked)(environ, lambda s, h, e=None: status.append(s)))
+    sx.observe('status', status)
+    sx.observe('body', out[:300])
+    if kind == 'none':
+        return status[0].startswith('200') and b'last' in out
+    if b'4711' in out or b'secret' in out or b'RuntimeError' in out or b'Traceback' in out:
+        return False
+    if kind == 'fault':
+        code_ok = (b'Sender' in out and b'Lazy' in out) if proto == 'soap12' else b'Client.Lazy' in out    # SOAP 1.2: Sender + subcode
+        return code_ok and b'lazy fault' in out and not status[0].startswith('200')
+    server_code = b'Receiver' if proto == 'soap12' else b'Server'        # SOAP 1.2 spells the Server family 'Receiver'
+    return status[0].startswith('500') and b'Internal Error' in out and (server_code in out) and b'InternalError' not in out
